@@ -1185,6 +1185,9 @@ func runC13(w *World, r *Report) {
 		}
 	}
 
+	r.rule("replayed-vertex-verified", "a parked vertex re-enters through addLeafMemorized, where the insertion lies behind verify on every path — whatever the retry counter says", 1)
+	gossipVerifyBeforeAdmit(w, r, "replayed-vertex-verified")
+
 	r.rule("retry-reenters-admission", "the retry loop hands every parked vertex to addLeafMemorized and nothing else inserts into the DAG (closure facts of C10)", 2)
 	if rl := w.fx(r, "accountant", "AccountingBook", "runLeafSubscriber"); rl != nil {
 		cs := rl.calls(cn("accountant", "*AccountingBook", "addLeafMemorized"))
